@@ -273,6 +273,11 @@ def check_pairs(group, units, dt, scalar):
                 fail(key + ":to:unit", "x.to(%s) has unit %s" % (nB, y.units), mkx + "y = x.to(unyt.Unit(%r))\nprint(y.units)\nsys.exit(0 if y.units == unyt.Unit(%r) and y.units.expr == unyt.Unit(%r).expr else 1)\n" % (nB, nB, nB))
 
 
+# witnesses of known families, always evaluated (the seeded 1/6 sample of the quick tier would find them only for some seeds)
+PINNED = {("quad", "cal", "foe"), ("quad", "kg*m**2/s**2", "bethe"), ("quad", "BTU", "foe"), ("C", "q_pl", "statC"), ("K", "mdegC", "degF"),
+          ("degF", "mK", "degC"), ("lat", "rad", "lon"), ("statC", "C", "mC"), ("G", "T", "mT")}
+
+
 def check_triples(group, units, dt, scalar, stride):
     kn = KN[dt]
     rtol = RTOL[dt]
@@ -288,7 +293,7 @@ def check_triples(group, units, dt, scalar, stride):
             for C in units:
                 if C[0] in (A[0], B[0]):
                     continue
-                if stride > 1 and h(SEED, group, A[0], B[0], C[0], dt, scalar) % stride:
+                if stride > 1 and h(SEED, group, A[0], B[0], C[0], dt, scalar) % stride and (A[0], B[0], C[0]) not in PINNED:
                     continue
                 ck = (A[0], C[0])
                 if ck not in cache:
